@@ -1020,22 +1020,40 @@ class AnnotateAssembly(Contract):
         items = st.get(st.get(asm, "annotations"), "items")
         out = [("carries-requested-id", tm.eq(st.get(asm, "id").t, pre.get(a["self"], "id").t)),
                ("carries-requested-name", tm.eq(st.get(asm, "name").t, pre.get(a["self"], "name").t))]
-        for key, want in (("topology", "circular"), ("molecule_type", "ds-DNA"), ("data_file_division", "SYN"),
-                          ("organism", "synthetic DNA construct"), ("source", "synthetic DNA construct")):
-            v = items.get(key)
-            out.append(("annotation-%s" % key, tm.eq(v.t, want) if isinstance(v, VT) else tm.FALSE))
+        # what C09 asks of the annotations: circular topology; a molecule type (without one the record cannot be written to
+        # GenBank); a comment that *names* the vector and every supplied module.  How the comment is worded, how many lines it
+        # has and what else is annotated (division, organism, ...) is left open.
+        topo = items.get("topology")
+        out.append(("annotation-topology", tm.eq(tm.lower(topo.t), "circular") if isinstance(topo, VT) and topo.t.sort == STR else tm.FALSE))
+        mt = items.get("molecule_type")
+        out.append(("annotation-molecule_type", tm.lt(0, tm.slen(mt.t)) if isinstance(mt, VT) and mt.t.sort == STR else tm.FALSE))
         c = items.get("comment")
-        ok = isinstance(c, VList) and len(st.get(c, "items")) == 3
-        out.append(("comment-has-generator-vector-modules-lines", tm.B(ok)))
+        if isinstance(c, VList):
+            lines = [l for l in st.get(c, "items")]
+        elif isinstance(c, VT) and c.t.sort == STR:
+            lines = [c]
+        else:
+            lines = None
+        ok = lines is not None and all(isinstance(l, VT) and l.t.sort == STR for l in lines)
+        out.append(("comment-is-text", tm.B(ok)))
         if ok:
-            lines = st.get(c, "items")
+            def named(x):
+                return tm.or_(*[tm.contains(l.t, x) for l in lines]) if lines else tm.FALSE
+
             vid = pre.get(pre.get(pre.get(a["self"], "vector"), "record"), "id").t
-            out.append(("comment-names-the-vector", tm.eq(lines[1].t, tm.concat("Vector: ", vid))))
+            out.append(("comment-names-the-vector", named(vid)))
             M = ex.models.list_term(pre, pre.get(a["self"], "modules"), INT)
-            out.append(("comment-names-every-module-in-argument-order",
-                        tm.eq(lines[2].t, tm.concat("Modules: ", tm.app("join_ids", STR, M)))))
+            i = tm.V("i_mod", INT)
+            out.append(("comment-names-every-supplied-module",
+                        tm.forall_range(i, 0, tm.seqlen(M), named(tm.app("eid", STR, tm.seqnth(M, i))))))
         out.append(("text-untouched", tm.eq(ex.models.rec_text(st, asm), ex.models.rec_text(pre, asm))))
         return out
+
+    def assumes(self, ex, st, a):
+        # D-JOIN: ", ".join(ids) contains each of the ids (semantics of str.join, assumed)
+        M = ex.models.list_term(st, st.get(a["self"], "modules"), INT)
+        i = tm.V("i_join", INT)
+        return [tm.forall_range(i, 0, tm.seqlen(M), tm.contains(tm.app("join_ids", STR, M), tm.app("eid", STR, tm.seqnth(M, i))))]
 
     def result(self, ex, st, a):
         st = st.fork()
@@ -1045,12 +1063,13 @@ class AnnotateAssembly(Contract):
         d = VDict(new_oid())
         vid = st.get(st.get(st.get(a["self"], "vector"), "record"), "id").t
         M = ex.models.list_term(st, st.get(a["self"], "modules"), INT)
-        st, comment = ex.new_list(st, [VT(tm.fresh("generated_with", STR)), VT(tm.concat("Vector: ", vid)),
-                                       VT(tm.concat("Modules: ", tm.app("join_ids", STR, M)))])
-        st.set_inplace(d, "items", {"topology": VT(tm.S("circular")), "molecule_type": VT(tm.S("ds-DNA")),
-                                    "data_file_division": VT(tm.S("SYN")),
-                                    "organism": VT(tm.S("synthetic DNA construct")),
-                                    "source": VT(tm.S("synthetic DNA construct")), "comment": comment})
+        # (no more than the postcondition says: some circular spelling of the topology, some molecule type, some text that
+        #  names the vector and every module)
+        topo, mt, comment = tm.fresh("product_topology", STR), tm.fresh("product_molecule_type", STR), tm.fresh("product_comment", STR)
+        i = tm.V("i_res", INT)
+        st = st.assume(tm.eq(tm.lower(topo), "circular"), tm.lt(0, tm.slen(mt)), tm.contains(comment, vid),
+                       tm.forall_range(i, 0, tm.seqlen(M), tm.contains(comment, tm.app("eid", STR, tm.seqnth(M, i)))))
+        st.set_inplace(d, "items", {"topology": VT(topo), "molecule_type": VT(mt), "comment": VT(comment)})
         st.set_inplace(asm, "annotations", d)
         return [(st, NONE)]
 
